@@ -19,6 +19,7 @@ import (
 	"strings"
 
 	"gonum.org/v1/gonum/dsp/fourier"
+	"gonum.org/v1/gonum/dsp/transform"
 
 	"gonum.org/v1/gonum/verifharness/internal/core"
 )
@@ -37,6 +38,10 @@ type event struct {
 	Tok    string `json:"tok"`
 	RetDst bool   `json:"retdst"`
 	SrcOK  bool   `json:"srcok"`
+	// Dev (Hilbert.as only): largest |Re(result[i]) - input[i]| in units of 2^-52 * |input|_1, rounded up -
+	// a logging-boundary quantity computed from the values the real code was given and returned; the
+	// specification states the bound it must satisfy.
+	Dev int `json:"dev"`
 }
 
 // result of one transform call as seen from outside
@@ -45,6 +50,8 @@ type callRes struct {
 	tok    string
 	retdst bool
 	srcok  bool
+	data   []float64 // the returned values (flat)
+	dev    int
 }
 
 // object is one live transform object behind a uniform calling convention:
@@ -134,7 +141,8 @@ func callX[S, D any](f func(dst []D, src []S) []D, src []S, mode string, dl int,
 	if r.out.Panicked {
 		return r
 	}
-	r.tok = hashBits(flatD(ret))
+	r.data = flatD(ret)
+	r.tok = hashBits(r.data)
 	r.retdst = dst != nil && len(ret) == len(dst) && (len(ret) == 0 || &ret[0] == &dst[0])
 	r.srcok = sameBits(before, flatS(src))
 	return r
@@ -188,6 +196,35 @@ func (o dstObj) call(kind string, src []float64, mode string, dl int) callRes {
 	return callSame(o.t.Transform, idF(src), mode, dl, idF)
 }
 
+type hilbertObj struct{ t *transform.Hilbert }
+
+func (o hilbertObj) reset(n int)           { panic("harness: Hilbert has no Reset") }
+func (o hilbertObj) length() int           { return o.t.Len() }
+func (o hilbertObj) kinds() []string       { return []string{"Hilbert.as"} }
+func (o hilbertObj) cplxSrc(k string) bool { return false }
+func (o hilbertObj) call(kind string, src []float64, mode string, dl int) callRes {
+	r := callX(o.t.AnalyticSignal, src, mode, dl, idF, fromC)
+	if r.out.Panicked || len(r.data) != 2*len(src) {
+		return r
+	}
+	l1, dev := 0.0, 0.0
+	for i, x := range src {
+		l1 += math.Abs(x)
+		if d := math.Abs(r.data[2*i] - x); d > dev || math.IsNaN(d) {
+			dev = d
+		}
+	}
+	switch u := math.Ceil(dev / (l1 * 0x1p-52)); {
+	case dev == 0:
+		r.dev = 0
+	case math.IsNaN(u) || u > math.MaxInt32:
+		r.dev = math.MaxInt32
+	default:
+		r.dev = int(u)
+	}
+	return r
+}
+
 type qwObj struct{ t *fourier.QuarterWaveFFT }
 
 func (o qwObj) reset(n int)           { o.t.Reset(n) }
@@ -223,6 +260,8 @@ func newObject(typ string, n int) (o object, out core.Outcome) {
 			o = dstObj{fourier.NewDST(n)}
 		case "QW":
 			o = qwObj{fourier.NewQuarterWaveFFT(n)}
+		case "Hilbert":
+			o = hilbertObj{transform.NewHilbert(n)}
 		default:
 			panic("harness: unknown type " + typ)
 		}
@@ -351,13 +390,17 @@ func recordObjects(out *core.Out, args []string, seed int64, sum *core.Summary) 
 			epoch := 0
 			cur := n0 // the harness's own book-keeping of what it asked for (used only to choose arguments)
 			for s := 0; s < steps; s++ {
-				switch p := rnd.Intn(100); {
+				p := rnd.Intn(100)
+				if typ == "Hilbert" && p >= 55 && p < 75 {
+					p = 0 // no Reset method: more calls on the same object instead
+				}
+				switch {
 				case p < 55: // valid-looking transform
 					kinds := obj.kinds()
 					kind := kinds[rnd.Intn(len(kinds))]
 					inp := rnd.Intn(ninp)
 					modes := []string{"nil", "fresh"}
-					if typ != "FFT" {
+					if typ != "FFT" && typ != "Hilbert" {
 						modes = append(modes, "same")
 					}
 					mode := modes[rnd.Intn(len(modes))]
@@ -368,10 +411,10 @@ func recordObjects(out *core.Out, args []string, seed int64, sum *core.Summary) 
 						dl = sl
 					}
 					out.Emit(event{Op: "T", Obj: 0, Type: typ, Kind: kind, SL: sl, DL: dl, Inp: inp, Mode: mode,
-						Out: outStr(r.out), Tok: r.tok, RetDst: r.retdst, SrcOK: r.srcok})
+						Out: outStr(r.out), Tok: r.tok, RetDst: r.retdst, SrcOK: r.srcok, Dev: r.dev})
 					sum.Cases++
 					key := fmt.Sprintf("%s/%d/%d", kind, cur, inp)
-					if e, ok := seen[key]; ok && e != epoch {
+					if e, ok := seen[key]; ok && (e != epoch || typ == "Hilbert") {
 						sum.Nontrivial++ // same key again after the object was Reset / replaced in between
 					}
 					seen[key] = epoch
@@ -387,7 +430,7 @@ func recordObjects(out *core.Out, args []string, seed int64, sum *core.Summary) 
 					if !o2.Panicked {
 						r2 := fo.call(kind, poolData(seed, kind, sl, inp, obj.cplxSrc(kind)), "nil", 0)
 						out.Emit(event{Op: "T", Obj: 1, Type: typ, Kind: kind, SL: sl, DL: 0, Inp: inp, Mode: "nil",
-							Out: outStr(r2.out), Tok: r2.tok, RetDst: r2.retdst, SrcOK: r2.srcok})
+							Out: outStr(r2.out), Tok: r2.tok, RetDst: r2.retdst, SrcOK: r2.srcok, Dev: r2.dev})
 						sum.Cases++
 					}
 				case p < 75: // Reset, sometimes to an illegal length
@@ -402,7 +445,7 @@ func recordObjects(out *core.Out, args []string, seed int64, sum *core.Summary) 
 					}
 					epoch++
 					sum.Count("resets", 1)
-				case p < 87: // a call with wrong lengths
+				case p >= 75 && p < 87: // a call with wrong lengths
 					kinds := obj.kinds()
 					kind := kinds[rnd.Intn(len(kinds))]
 					sl, dl := srcLen(kind, cur), dstLen(kind, cur)
@@ -434,7 +477,7 @@ func recordObjects(out *core.Out, args []string, seed int64, sum *core.Summary) 
 					if r.out.Runtime {
 						sum.Fail("dsp:"+kind+":runtime-panic", fmt.Sprintf("n=%d sl=%d dl=%d mode=%s: %s", cur, sl, dl, mode, r.out.Text), nil)
 					}
-				case p < 95:
+				case p >= 87 && p < 95:
 					out.Emit(event{Op: "Len", Obj: 0, Type: typ, N: obj.length()})
 				default: // replace the object by a new one
 					m := pal[rnd.Intn(len(pal))]
